@@ -85,10 +85,11 @@ type ContractTable struct {
 	GhostDefaults map[string]string // ghost field key -> default value of freshly allocated objects
 	ChanValues map[string][]ChanValue // element type string -> facts about values travelling through channels of that type
 	InitFacts map[string][]Clause // "pkgname.global" -> facts established by the package initialiser (assumed)
+	TrustFrame map[string]bool // package paths whose uncontracted functions get an assumed empty frame
 }
 
 func newContractTable() *ContractTable {
-	return &ContractTable{C: map[string]*Contract{}, Funcs: map[string]*SpecFunc{}, Imports: map[string]string{}, GhostFields: map[string]string{}, Consts: map[string]string{}, GhostDefaults: map[string]string{}, ChanValues: map[string][]ChanValue{}, InitFacts: map[string][]Clause{}}
+	return &ContractTable{C: map[string]*Contract{}, Funcs: map[string]*SpecFunc{}, Imports: map[string]string{}, GhostFields: map[string]string{}, Consts: map[string]string{}, GhostDefaults: map[string]string{}, ChanValues: map[string][]ChanValue{}, InitFacts: map[string][]Clause{}, TrustFrame: map[string]bool{}}
 }
 
 var tagRe = regexp.MustCompile(`^\[([A-Za-z0-9_.:+~\-]+)\]\s*`)
@@ -96,7 +97,7 @@ var pkgClauseRe = regexp.MustCompile(`^package\s+(\w+)`)
 
 var clauseKeywords = map[string]bool{"requires": true, "ensures": true, "modifies": true, "pure": true, "assumed": true,
 	"functype": true, "loop": true, "results": true, "params": true, "maypanic": true, "wrapping": true, "assert": true, "use": true, "allocates": true,
-	"nonblocking": true, "ghostset": true, "callsonce": true, "before": true, "dead": true, "func": true, "iface": true, "lemma": true, "import": true, "chanvalue": true, "initfact": true, "axiom": true, "ghostfield": true, "uninterp": true, "const": true}
+	"nonblocking": true, "ghostset": true, "callsonce": true, "before": true, "dead": true, "func": true, "iface": true, "lemma": true, "import": true, "trustframe": true, "chanvalue": true, "initfact": true, "axiom": true, "ghostfield": true, "uninterp": true, "const": true}
 
 // loadContractFile parses one file. defaultPkg is used for keys without package qualifier
 // (the Go package name of the file for in-repo contract files).
@@ -177,6 +178,12 @@ func (ct *ContractTable) loadContractFile(path string) error {
 		case "import":
 			if len(fields) == 3 {
 				ct.Imports[fields[1]] = strings.Trim(fields[2], "\"")
+			}
+		case "trustframe":
+			// trustframe <package path> ...: calls into these (external) packages that have no contract
+			// are ASSUMED to write no memory the verified code can see and to return unconstrained values
+			for _, f := range fields[1:] {
+				ct.TrustFrame[strings.Trim(f, "\"")] = true
 			}
 		case "const":
 			// const NAME = value
